@@ -17,9 +17,13 @@
      WebAssembly on bit patterns - 98 operators, i32 / i64 arithmetic, comparisons, shifts, rotations, bit counting, sign
      extension, loads / stores of every width on ONE linear memory, memory.size / memory.grow -, locals / globals / the memory
      reached through slot maps, EXACT label heights), for every parse / emit context and every body whose load / store
-     immediates survive the round trip ([memarg_ok]: offset < 2^32, alignment exponent < 32): the output tree (the one whose
+     immediates survive the round trip ([memarg_ok]: offset < 2^32, alignment exponent < 32) and whose operators are all
+     decodable (true of every core operator; the parser panics otherwise): the output tree (the one whose
      flattening is the emitted stream) on the renumbered slots and the output type table gives exactly the result of the
-     input body - stack, locals, globals, memory contents and size.
+     input body - stack, locals, globals, memory contents and size, and the verdict, where GOING WRONG (Wrong: a failure no
+     validated body reaches, Props/C02.v c02_accepted_bodies_never_go_wrong) is told apart from TRAPPING.
+   - c01_undecodable_operator_changes_verdict: without decodability the instance is false - `ref.null` of a concrete heap
+     type goes wrong in the input and is totalised into `unreachable` (a trap) by the model of the parser.
    - c01_equivalence_for_the_operators_of_the_body: the abstract theorem with the per-operator hypotheses asked only for the
      operators that occur in the body ([ops_of], dead code included) - needed because
    - c01_truncated_offset_changes_behaviour: walrus keeps [offset mod 2^32] of a memory immediate; for an offset of 2^32 the
@@ -205,6 +209,7 @@ Theorem c01_integer_core_instance :
           find_type cx ps rs = Some ty -> tys' (ex_id2i ecx S_type ty) = Some (ps, rs)) ->
          forall l : list rt,
          (forall o : wop, In o (ops_of l) -> memarg_ok o = true) ->
+         (forall o : wop, In o (ops_of l) -> decode_plain (px_i2id cx) o <> None) ->
          forall (fuel : nat) (s : SemCore.st),
          run_core lslot' gslot' mslot' tys' fuel (map (ren_t cx ecx) (fst (nf_rt_list false l))) s =
          run_core lslot gslot mslot tys fuel l s.
@@ -247,9 +252,47 @@ Theorem c01_truncated_offset_changes_behaviour :
          Next {| stk := [VI32 42; VI32 0]; locs := []; globs := []; labs := []; mem := [(0%N, 42%N)]; pages := 1; max_pages := 1 |}.
 Proof. exact core_sem_renamed_big_offset_refuted. Qed.
 
+Theorem c01_undecodable_operator_changes_verdict :
+  exists (cx : pctx) (ecx : ectx) (lslot gslot mslot lslot' gslot' mslot' : N -> N) (o : wop) (s : SemCore.st),
+         (forall i : N, lslot' (rl cx ecx i) = lslot i) /\
+         (forall i : N, gslot' (rg cx ecx i) = gslot i) /\
+         (forall i : N, mslot' (rm cx ecx i) = mslot i) /\
+         offset_ok o = true /\
+         core_sem lslot gslot mslot (WOp o) s = Halt Wrong s /\
+         core_sem lslot' gslot' mslot' (nf_op cx ecx o) s = Halt Trap s.
+Proof. exact core_sem_renamed_undecodable_refuted. Qed.
+
 Theorem c01_encoder_total :
   forall (id2i : space -> N -> N) (p : plain), encode_plain id2i p <> None.
 Proof. exact encode_total. Qed.
+
+(* ---- WHOLE MODULES with calls (Model/SemMod.v, Proofs/SemMod.v): the 98-operator machine plus direct calls and call_indirect (function
+   identities through a slot map, a table of identities, structural signature check, callee frames, call depth k).  A module whose bodies are
+   replaced by their emitted bodies (normal form, operators re-encoded, locals renumbered and possibly dropped per function), whose functions are
+   REORDERED by rf with the table and every call site renamed accordingly, and whose types / globals / memories / tables are renumbered
+   consistently, behaves exactly like the input module: same result, same trap, same exhaustion, same final globals and memory, for every entry
+   function, arguments, call depth and fuel.  Compared with V8 on generated multi-function modules (Run/SemModRun.v). *)
+From WV Require Import Model.SemMod Proofs.SemMod.
+Theorem c01_whole_module_round_trip_preserves_behaviour :
+  forall (m m' : cmod) (lslot lslot' : N -> N -> N) (fslot gslot mslot tslot fslot' gslot' mslot' tslot' : N -> N)
+         (cxo : N -> pctx) (ecxo : N -> ectx) (rf : N -> N),
+    (forall i, fslot' (rf i) = fslot i) ->
+    (forall i i2 d d2, nth_optN i (cm_funcs m) = Some d -> nth_optN i2 (cm_funcs m) = Some d2 -> fslot i = fslot i2 -> i = i2) ->
+    (forall j d', nth_optN j (cm_funcs m') = Some d' -> exists i d, nth_optN i (cm_funcs m) = Some d /\ rf i = j) ->
+    (forall i ti ls body, nth_optN i (cm_funcs m) = Some (ti, ls, body) ->
+       fn_ok (env_of m lslot fslot gslot mslot tslot) (env_of m' lslot' fslot' gslot' mslot' tslot') cxo ecxo (fslot i) body /\
+       exists ti' ls', nth_optN (rf i) (cm_funcs m') = Some (ti', ls', out_body (cxo (fslot i)) (ecxo (fslot i)) body) /\
+                       nth_optN ti' (cm_tys m') = nth_optN ti (cm_tys m) /\
+                       frames_agree (env_of m lslot fslot gslot mslot tslot) (env_of m' lslot' fslot' gslot' mslot' tslot') (fslot i) ti ls ls' body) ->
+    cm_table m' = map (option_map rf) (cm_table m) ->
+    forall k fuel f args s0,
+      run_mod (env_of m' lslot' fslot' gslot' mslot' tslot') k fuel f args s0 = run_mod (env_of m lslot fslot gslot mslot tslot) k fuel f args s0.
+Proof. exact mod_roundtrip_equiv_cmod. Qed.
+
+(* the per-operator step: with calls resolved through the function slot maps, the re-encoded operator of the output module steps like the input's *)
+Theorem c01_call_operators_are_renamed_consistently : forall cx ecx f ti tb,
+  nf_op cx ecx (W_Call f) = WOp (W_Call (rfn cx ecx f)) /\ nf_op cx ecx (W_CallIndirect ti tb) = WOp (W_CallIndirect (rty cx ecx ti) (rtb cx ecx tb)).
+Proof. intros cx ecx f ti tb. exact (conj (nf_op_call cx ecx f) (nf_op_call_indirect cx ecx ti tb)). Qed.
 
 Print Assumptions c01_normal_form_is_equivalent.
 Print Assumptions c01_equivalence_on_the_renamed_operators.
@@ -267,6 +310,9 @@ Print Assumptions c01_interface_has_content.
 Print Assumptions c01_reordering_without_renaming_differs.
 Print Assumptions c01_integer_core_instance.
 Print Assumptions c01_integer_core_never_falls.
+Print Assumptions c01_undecodable_operator_changes_verdict.
 Print Assumptions c01_equivalence_for_the_operators_of_the_body.
 Print Assumptions c01_truncated_offset_changes_behaviour.
 Print Assumptions c01_encoder_total.
+Print Assumptions c01_whole_module_round_trip_preserves_behaviour.
+Print Assumptions c01_call_operators_are_renamed_consistently.
